@@ -97,14 +97,20 @@ def main(argv):
     except Exception:
         res.add_broken("check crashed (machinery error)", traceback.format_exc())
         return res.finish()
-    unread = {g: r for g, r in fallbacks.items() if g in relevant}
+    pinned = {g: r for g, r in fallbacks.items() if g in relevant and g.startswith("pin_")}
+    unread = {g: r for g, r in fallbacks.items() if g in relevant and not g.startswith("pin_")}
+    if pinned:
+        res.extra["pins"] = {"hand_modelled_code_changed": pinned,
+                             "consequence": "the hand-written model was written from another text: correspondence run with three seeds"}
+        res.assumptions.append("hand-modelled code differs from the text its model was written from (" + "; ".join(pinned.values())[:400] +
+                               "): the model is tied to the changed code by the correspondence run (three seeds) only")
     if unread:
         res.extra["translation"] = {"unreadable_groups": unread,
                                     "model_used": "committed model of the pinned source (xlate/baseline) for these groups, tied by the correspondence run only"}
         res.assumptions.append("the translator could not read " + ", ".join(sorted(unread)) + " in the current source (" + "; ".join(unread.values())[:300] +
                                "): for these parts the committed model of the pinned source carries the proof and the correspondence run (three seeds) is the only tie")
     if not res.broken:
-        run_module(res, more_seeds if unread else [seed])
+        run_module(res, more_seeds if (unread or pinned) else [seed])
     # 2. the regenerated model was rejected (an obligation about it fails, or it disagrees with the implementation)
     #    and no concrete failing input was found: the committed model of the pinned source is the second candidate —
     #    the property is shown when ONE model is both proved and in correspondence with the implementation
